@@ -42,9 +42,10 @@ pub enum Kind {
     FullVertex,
     Storm,
     DeepMerge,
+    Sacrifice,
 }
 
-const KINDS: [Kind; 31] = [
+const KINDS: [Kind; 32] = [
     Kind::Add,
     Kind::AddNext,
     Kind::NextOnly,
@@ -76,12 +77,16 @@ const KINDS: [Kind; 31] = [
     Kind::FullVertex,
     Kind::Storm,
     Kind::DeepMerge,
+    Kind::Sacrifice,
 ];
 
 fn base_weights(prop: &str) -> Vec<(Kind, u32)> {
     use Kind::*;
     let core = vec![(Add, 10), (AddNext, 4), (Bind, 16), (Put, 11), (Data, 12), (BigGroup, 1), (FullVertex, 1), (Storm, 1)];
     let mut w = core;
+    if !matches!(prop, "C07" | "C09" | "C19") {
+        w.push((Sacrifice, 1));
+    }
     match prop {
         "C01" => w.extend([
             (NextOnly, 1), (Clone, 2), (DropInst, 1), (Save, 2), (SaveLoadLinked, 1), (Load, 1), (Crash, 1),
@@ -246,7 +251,7 @@ impl Gen {
         let faults_enabled = !fault_free;
         if !faults_enabled {
             for (i, w) in weights.iter_mut().enumerate() {
-                if matches!(KINDS[i], Kind::Crash | Kind::Damage | Kind::Oob) {
+                if matches!(KINDS[i], Kind::Crash | Kind::Damage | Kind::Oob | Kind::Sacrifice) {
                     *w = 0;
                 }
             }
@@ -1211,7 +1216,32 @@ impl Gen {
                 Some(Step::Empty { i: x })
             }
             Kind::Cycle => self.cycle(view, i),
-            Kind::Oob => self.oob(view, i),
+            Kind::Oob => self.oob(view, i, false),
+            Kind::Sacrifice => {
+                // a caller fault (an out-of-limit or out-of-contract call, caught by the caller) on a
+                // throw-away copy, while every other graph of the process goes on being judged
+                if m.adoptive || inst.poisoned || inst.age == 0 {
+                    return None;
+                }
+                let dst = view.free_slot()?;
+                let n = self.rng.range(1, 3);
+                let mut calls = Vec::new();
+                for _ in 0..n {
+                    if let Some(Step::Oob { call, .. }) = self.oob(view, i, true) {
+                        calls.push(call);
+                    }
+                }
+                if calls.is_empty() {
+                    return None;
+                }
+                for call in calls {
+                    self.queue.push_back(Step::Oob { i: dst, call });
+                }
+                if self.rng.chance(3, 4) {
+                    self.queue.push_back(Step::Drop { i: dst });
+                }
+                Some(Step::Clone { src: i, dst, link: false })
+            }
             Kind::Damage => {
                 let path = self.rng.below(PATHS);
                 if matches!(view.paths[path].now, OnDisk::Missing) {
@@ -1334,11 +1364,12 @@ impl Gen {
         Some(first)
     }
 
-    fn oob(&mut self, view: &View, i: usize) -> Option<Step> {
+    fn oob(&mut self, view: &View, i: usize, simple: bool) -> Option<Step> {
         let m = &view.insts[i].as_ref().unwrap().m;
         let k = self.rng.below(3) * self.rng.below(50);
         let p = |g: &mut Self| g.pick_present(m).map(|v| view.name(v));
-        let call = match self.rng.below(17) {
+        let sel = if simple { *self.rng.pick(&[0_usize, 1, 2, 3, 4, 5, 6, 7, 7, 9, 10, 11, 12, 13, 15]) } else { self.rng.below(17) };
+        let call = match sel {
             0 => Oob::AddOver(k),
             1 => Oob::BindFromOver(k, p(self)?),
             2 => Oob::BindToOver(p(self)?, k),
